@@ -46,7 +46,8 @@ def cases(ctx):
                 yield {"kind": "twin", "prog": prog, "values": {"t0": v}, "modes": ["pre"], "hardware": "generic", "script": [v % 2]}
     # ("same-object": the compiled subroutine itself is filled in again for every round; "...-refused-first": a first attempt to
     # fill in lacks a value and is refused, the complete one follows; "hw-template": the NV compiler on the hardware setting)
-    for route in ("copies", "proto", "same-object", "same-object-refused-first", "proto-refused-first", "hw-template"):
+    for route in ("copies", "proto", "same-object", "same-object-refused-first", "proto-refused-first", "hw-template", "proto-same-object",
+                  "proto-queued-between"):
         for host_values in (False, True):
             for _ in range(2 if ctx.quick else 20):
                 k += 1
@@ -186,6 +187,29 @@ def _template_routes(ctx, case):
                     s_ = _copy.copy(tmpl)
                     s_.instantiate(conn.app_id, {"a": wrap(a_), "b": wrap(b_)})
                     conn.commit_subroutine(s_)
+            elif route == "proto-same-object":
+                # one protosubroutine taken once and filled in again for every round
+                block()
+                proto = conn.builder.subrt_pop_pending_subroutine()
+                for a_, b_ in values:
+                    proto.instantiate(conn.app_id, {"a": wrap(a_), "b": wrap(b_)})
+                    conn.commit_protosubroutine(proto)
+            elif route == "proto-queued-between":
+                # the protosubroutine is taken, further operations are queued while the host waits for the values, then it is
+                # filled in and committed; the operations queued in between go out with the next flush, complete
+                late = []
+                for a_, b_ in values:
+                    block()
+                    proto = conn.builder.subrt_pop_pending_subroutine()
+                    q2 = Qubit(conn)
+                    late.append(q2.measure())
+                    late.append(Qubit(conn).measure(store_array=False))
+                    proto.instantiate(conn.app_id, {"a": wrap(a_), "b": wrap(b_)})
+                    conn.commit_protosubroutine(proto)
+                    conn.flush()
+                    ctx.count("operations_queued_between_take_and_commit", 2)
+                    if [int(h) for h in late[-2:]] != [0, 0]:
+                        ctx.fail(case, f"template route {route}: outcomes of measurements queued between taking and committing a protosubroutine read {[int(h) for h in late[-2:]]}")
             else:
                 for a_, b_ in values:
                     block()
